@@ -116,7 +116,8 @@ def stepTarget (force three : Bool) (original : List Obj) (t : Obj) (r : UpRes) 
   let log1 := r.log ++ [.get t.key]
   match r.store.get? t.key with
   | none =>
-    if r.rej.contains t.key then { r with log := log1 ++ [.create t.key], err := true }   -- "failed to create resource"
+    -- "failed to create resource"; the resource is listed as created even so (`res.Created` is appended before the request)
+    if r.rej.contains t.key then { r with log := log1 ++ [.create t.key], created := r.created ++ [t.key], err := true }
     else { r with store := r.store.put t, log := log1 ++ [.create t.key], created := r.created ++ [t.key] }
   | some live =>
     match original.find? (·.key = t.key) with
@@ -225,6 +226,28 @@ def lowerChar (c : Char) : Char := if 'A' ≤ c ∧ c ≤ 'Z' then Char.ofNat (c
 /-- `strings.ToLower(strings.TrimSpace(v))`, ASCII part -/
 def normPolicy (v : String) : List Char :=
   (((v.toList.dropWhile isSpace).reverse.dropWhile isSpace).reverse).map lowerChar
+
+/-- `Upgrade.failRelease` on the cluster side: with cleanup-on-fail the resources the failed update
+listed as created are deleted; with atomic the release is rolled back to the deployed manifest
+-- `rollbackTo`: the manifest of the newest revision marked superseded or deployed, if atomic is
+set and there is one -- the failed revision's manifest being the one rolled back from -/
+def upgradeFull (rel ns : String) (takeOwnership force cleanupOnFail : Bool) (rollbackTo : Option (List Obj))
+    (current target : List Obj) (s : Store) (rej : List String := []) : OpRes :=
+  let target' := target.map (stamp rel ns)
+  let toBeCreated := target'.filter fun t => (current.find? (·.key = t.key)).isNone
+  match preflight takeOwnership rel ns toBeCreated s with
+  | (none, log) => ⟨s, log, false⟩
+  | (some adopted, log) =>
+    let r := updateR rej force false (current ++ adopted) target' s
+    if !r.err then ⟨r.store, log ++ r.log, true⟩
+    else
+      let s1 := if cleanupOnFail then r.created.foldl (fun acc k => acc.del k) r.store else r.store
+      let log1 := log ++ r.log ++ (if cleanupOnFail then r.created.map Ev.delete else [])
+      match rollbackTo with
+      | some prev =>
+        let rb := rollbackCluster rel ns force target prev s1 rej
+        ⟨rb.store, log1 ++ rb.log, false⟩
+      | none => ⟨s1, log1, false⟩
 
 /-- `filterManifestsToKeep` on the manifest (not the live object): keep (some true) or delete
 (some false); any value of the annotation other than keep means delete -/
